@@ -19,7 +19,9 @@ impl StrengthReduction {
     }
 
     fn is_side_effect_free(expr: &Expression) -> bool {
-        matches!(expr, Expression::Literal(_) | Expression::Identifier(_))
+        // Only literals can be duplicated safely: reading an identifier twice would run
+        // `valueOf`/`toString` of an object value (and any accessor behind the binding) twice.
+        matches!(expr, Expression::Literal(_))
     }
 
     fn as_literal_int(expr: &Expression) -> Option<i32> {
